@@ -239,6 +239,39 @@ func projHashOut(h crypto.HashOutput) pHashOut { return pHashOut{Hash: uint64(h.
 // seconds, nearest, ties to even (what max-age can carry).
 func roundSeconds(d time.Duration) int64 { return int64(math.RoundToEven(d.Seconds())) }
 
+// keepsTable: what UnmarshalXML leaves alone in a destination that already holds a value, read
+// type by type from the code. ALL: the type has no UnmarshalXML of its own (or one that only
+// assigns what the document mentions): encoding/xml's convention — a field the document does not
+// mention keeps its value and a slice is appended to. Listed fields: a hand-written UnmarshalXML
+// that assigns them only when the attribute / child / text is present. Every type not listed
+// overwrites its whole destination (it decodes into a local zero struct and assigns every field):
+// the result must not depend on the destination at all.
+var keepsTable = map[string][]string{
+	"version.Query": {"ALL"}, "oob.Query": {"ALL"}, "oob.Data": {"ALL"}, "oob.IQ": {"ALL"},
+	"disco.ItemsQuery": {"ALL"}, "disco.InfoQuery": {"ALL"}, "disco.Info": {"ALL"}, "disco.Caps": {"ALL"},
+	"info.Feature": {"ALL"}, "info.Identity": {"ALL"}, "items.Item": {"ALL"},
+	"paging.RequestCount": {"ALL"}, "paging.RequestNext": {"ALL"}, "paging.RequestPrev": {"ALL"}, "paging.RequestIndex": {"ALL"}, "paging.Set": {"ALL"},
+	"roster.Item": {"ALL"}, "roster.IQ": {"ALL"}, "stanza.ID": {"ALL"}, "stanza.OriginID": {"ALL"},
+	"muc.Item": {"ALL"}, "commands.Command": {"ALL"}, "commands.Note": {"ALL"}, "upload.File": {"ALL"},
+	"upload.Slot":       {"ALL"}, // URLs only when present, headers added to the existing ones
+	"delay.Delay":       {"From", "Time", "Reason"},
+	"stanza.Delay":      {"From", "Time", "Reason"},
+	"forward.Forwarded": {"From", "Time", "Reason"},
+	"history.Result":    {"Complete", "Unstable", "Set"},
+	"saslerr.Condition": {"*"},
+	"saslerr.Error":     {"Lang", "Text"},
+	"pubsub.Condition":  {"*"},
+}
+
+func td0(t *typeDesc) *typeDesc { return t }
+
+// intoTable: the types whose decode-into-a-destination behaviour is modelled in Coq (buffer
+// re-use, fields kept): the observed result is compared with the model's on every document.
+var intoTable = map[string]struct{ checker string }{
+	"crypto.Key": {"ckey_into_ok"}, "crypto.HashOutput": {"hashout_into_ok"},
+	"delay.Delay": {"delay_into_ok"}, "saslerr.Error": {"saslerr_into_ok"},
+}
+
 var tzoRE = regexp.MustCompile(`^(Z|[+-][0-9][0-9]:[0-9][0-9])$`)
 
 // xtimeDirect: XEP-0202 stated on the tokens: <tzo/> is a XEP-0082 time zone
@@ -901,6 +934,7 @@ func allTypes() []*typeDesc {
 	// ---- decoding only ----
 	add(&typeDesc{name: "pubsub.Condition", codec: "pcond_c", level: "B", noEnc: true,
 		fresh: func() interface{} { q := pubsub.Condition(0); return &q },
+		dirty: func(r *hx.Rand) interface{} { q := pubsub.Condition(1 + r.Intn(22)); return &q },
 		proj:  func(p interface{}) interface{} { return uint64(*p.(*pubsub.Condition)) },
 		seeds: []string{`<closed-node xmlns='http://jabber.org/protocol/pubsub#errors'/>`, `<unsupported-access-model xmlns='http://jabber.org/protocol/pubsub#errors'/>`, `<payload-too-big/>`, `<CondNone/>`},
 	})
@@ -910,6 +944,12 @@ func allTypes() []*typeDesc {
 	ts = append(ts, extraTypes()...)
 	for _, t := range ts {
 		t.corpus = extraCorpus[t.name]
+		if k, ok := keepsTable[t.name]; ok {
+			t.keeps = k
+		}
+		if in, ok := intoTable[t.name]; ok {
+			t.intoChecker, t.intoOld = in.checker, func(dst interface{}) string { return coqOf(td0(t).proj(dst)) }
+		}
 	}
 	return ts
 }
